@@ -93,6 +93,13 @@ func check(tb ev.TB, c wsim.Case) (*wsim.Result, []string) {
 				return res, nil
 			}
 		}
+		// the balancer is offered the partitions of the message's own topic (partition counts never change inside a scenario)
+		for ti, tn := range c.Topics {
+			if tn == wantTopic && res.OfferedN[id] != c.Partitions[ti] {
+				fail("c01/offered-partitions", "message %v goes to topic %s, which has %d partitions, but the balancer was offered %d partitions to choose from", id, wantTopic, c.Partitions[ti], res.OfferedN[id])
+				return res, nil
+			}
+		}
 		if n := res.OfferedN[id]; int(wantPart) >= n || wantPart < 0 {
 			fail("c01/balancer-domain", "balancer was offered %d partitions and answered %d", n, wantPart)
 			return res, nil
@@ -309,7 +316,18 @@ func TestWriterFaults(t *testing.T) {
 			stratum = (caseNo / 3) % 5
 		}
 		c := wsim.GenCase(t, wsim.BiasFaults, stratum)
+		if stratum < 0 && caseNo%8 == 1 {
+			// Close arrives while calls are still being made: whatever a call accepted before (nil from an Async call, nil or
+			// WriteErrors from a synchronous one) keeps its outcome and its one Completion; later calls fail as a whole
+			c.CloseAfterUs = rapid.SampledFrom([]int{20, 100, 300, 1000, 3000, 10000}).Draw(t, "closeAfterUs")
+			if rapid.Bool().Draw(t, "closeAsync") {
+				c.Async = true
+			}
+		}
 		res, labels := check(t, c)
+		if c.CloseAfterUs > 0 {
+			labels = append(labels, "close_during_calls")
+		}
 		nontrivial := false
 		shared := map[string]int{}
 		for _, p := range res.Produces {
